@@ -43,6 +43,9 @@ def main():
     if not os.path.exists(wt):
         sh(["git", "-C", "/repo", "worktree", "add", "-q", "--detach", wt, head])
     sh("git checkout -q -- . && git clean -fdq && git checkout -q --detach %s" % head, cwd=wt)
+    if not os.path.exists(tgt) and os.path.exists("/repo/target/debug"):
+        # warm start from the repository's own build output (hard links; registry deps are reused)
+        subprocess.run(["cp", "-al", "/repo/target", tgt])
     env = {"CARGO_TARGET_DIR": tgt, "CARGO_BUILD_JOBS": "8"}
     res = {"repo_head": head, "ran": []}
     patch = os.path.join(src, "patch.diff")
